@@ -2,11 +2,16 @@
 EXTENDS MUC
 St(ty, r, n, c, k) == [ty |-> ty, room |-> r, nick |-> n, call |-> c, n |-> k,
                        lay |-> IF ty = "inv" THEN <<"u">> ELSE <<>>, pw |-> FALSE,
-                       shape |-> IF ty = "er" THEN "wf" ELSE "-"]
+                       shape |-> IF ty = "er" THEN "wf" ELSE "-",
+                       codes |-> CASE ty = "av" /\ n = "ot" -> <<110, 210>> [] ty \in {"av", "un"} -> <<110>> [] OTHER -> <<>>,
+                       item |-> "-"]
+(* a presence whose muc#user payload carries the given status codes and item variant *)
+Pres(ty, n, codes, item) == [St(ty, "r1", n, "-", 0) EXCEPT !.codes = codes, !.item = item]
 (* an error reply to call c of the given shape (MUC!WellFormedShapes / MalformedShapes) *)
 Er(c, sh) == [St("er", "r1", "me", c, 0) EXCEPT !.shape = sh]
 (* an invitation message: children in document order, k <invite/> in the muc#user payload *)
-Inv(lay, k, pw) == [ty |-> "inv", room |-> "r1", nick |-> "-", call |-> "-", n |-> k, lay |-> lay, pw |-> pw, shape |-> "-"]
+Inv(lay, k, pw) == [ty |-> "inv", room |-> "r1", nick |-> "-", call |-> "-", n |-> k, lay |-> lay, pw |-> pw, shape |-> "-",
+                    codes |-> <<>>, item |-> "-"]
 HasU(lay) == \E i \in 1..Len(lay) : lay[i] = "u"
 Layouts == {<<"u">>, <<"b", "u">>, <<"u", "b">>, <<"c">>, <<"b", "c">>, <<"c", "u">>, <<"u", "c">>,
             <<"b", "u", "c">>, <<"c", "b", "u">>, <<"t", "b", "c">>}
@@ -26,6 +31,20 @@ AlphaShape == {St("av", "r1", "me", "-", 0), St("un", "r1", "me", "-", 0)}
               \cup {Er(c, sh) : c \in CallSet, sh \in {"wf", "post", "bare", "badby"}}
 AlphaShapeQ == {St("av", "r1", "me", "-", 0), St("un", "r1", "me", "-", 0)}
                \cup {Er(c, sh) : c \in CallSet, sh \in {"wf", "bare"}}
+(* payload content of the presences: the occupant's own and another occupant's, available and unavailable,  *)
+(* with status codes (none, self, created, nick modified, new nickname, kicked, banned) and item variants   *)
+AlphaPl == {St("av", "r1", "me", "-", 0), St("un", "r1", "me", "-", 0),
+            Pres("av", "me", <<>>, "-"), Pres("av", "me", <<110, 201>>, "owner"), Pres("av", "ot", <<110>>, "nick"),
+            Pres("un", "me", <<303, 110>>, "nick"), Pres("un", "me", <<307>>, "actor"), Pres("un", "me", <<110>>, "rolekept"),
+            Pres("un", "me", <<>>, "destroy"), Pres("un", "ot", <<303>>, "nick"), Pres("un", "ot", <<301, 110>>, "outcast")}
+           \cup {St("er", "r1", "me", c, 0) : c \in CallSet}
+AlphaPlQ == {St("av", "r1", "me", "-", 0), St("un", "r1", "me", "-", 0),
+             Pres("av", "me", <<>>, "-"), Pres("un", "me", <<303, 110>>, "nick"), Pres("un", "me", <<110>>, "rolekept"),
+             Pres("un", "ot", <<303>>, "nick")}
+            \cup {St("er", "r1", "me", c, 0) : c \in CallSet}
+(* two channels in ONE room (nicknames me and me2): the presences of both occupant addresses, errors *)
+Alpha2n == {St(ty, "r1", nn, "-", 0) : ty \in {"av", "un"}, nn \in {"me", "me2"}}
+           \cup {St("er", "r1", "me", c, 0) : c \in CallSet}
 (* two rooms: self-presences and errors only *)
 Alpha2 == {St(ty, r, "me", "-", 0) : ty \in {"av", "un"}, r \in {"r1", "r2"}}
           \cup {St("er", "r1", "me", c, 0) : c \in CallSet}
